@@ -57,6 +57,8 @@ type digest struct {
 	lh      string
 	pending string
 	used    int
+	usedIdx []uint32
+	idxName map[uint32]string // relay index -> "r"+owner's peer name; hostinfo index -> peer name
 }
 
 func (e *exec) digest(n *relaynet.Node) digest {
@@ -68,6 +70,16 @@ func (e *exec) digest(n *relaynet.Node) digest {
 	d.lh = strings.Join(st.LhCache, ";")
 	d.pending = strings.Join(st.Pending, ";")
 	d.used = len(st.RelayUsed)
+	d.usedIdx = st.RelayUsed
+	d.idxName = map[uint32]string{}
+	byIdx := map[uint32]string{}
+	for _, h := range st.Hosts {
+		byIdx[h.LocalIndex] = e.nameOfHost(n, h)
+		d.idxName[h.LocalIndex] = byIdx[h.LocalIndex]
+	}
+	for i, o := range st.RelaysMap {
+		d.idxName[i] = "r" + byIdx[o]
+	}
 	return d
 }
 
@@ -137,9 +149,29 @@ func (e *exec) observeAct(rx int, act func(n *relaynet.Node)) string {
 		}
 	}
 	sort.Strings(out)
-	return fmt.Sprintf("tun=%d out=%s del=%s roam=%s in=%s win=%s rs=%s lh=%s pend=%s used=%d",
+	// which relay indexes are marked used, by name: r<peer> = a relay index living on the tunnel with
+	// <peer>, <peer> = a hostinfo index (never a relay index), zero, other = an index nobody owns
+	var ru []string
+	seenRu := map[string]bool{}
+	for _, i := range after.usedIdx {
+		nm, ok := before.idxName[i]
+		if !ok {
+			nm, ok = after.idxName[i]
+		}
+		if !ok {
+			nm = "other"
+			if i == 0 {
+				nm = "zero"
+			}
+		}
+		if !seenRu[nm] {
+			seenRu[nm] = true
+			ru = append(ru, nm)
+		}
+	}
+	return fmt.Sprintf("tun=%d out=%s del=%s roam=%s in=%s win=%s rs=%s lh=%s pend=%s used=%d ru=%s",
 		len(n.Dev.Out), set(out), set(del), set(roam), set(in), set(win), set(rs),
-		hlib.B(before.lh != after.lh), hlib.B(before.pending != after.pending), after.used)
+		hlib.B(before.lh != after.lh), hlib.B(before.pending != after.pending), after.used, set(ru))
 }
 
 // produce makes the sender emit one fresh valid datagram of the kind and returns it (taken off the wire).
@@ -231,6 +263,16 @@ func (e *exec) symIdx(sym string) uint32 {
 			}
 		}
 		return 0xfffffff1
+	case "relayB":
+		// a relay index of A that lives on its tunnel with B (exists after `pkt ctrl … none`)
+		st := A.State()
+		own := st.HostsMap[e.net.Nodes[nB].Vpn.String()]
+		for i, o := range st.RelaysMap {
+			if o == own && own != 0 {
+				return i
+			}
+		}
+		return 0xfffffff2
 	case "zero":
 		return 0
 	}
@@ -517,6 +559,18 @@ func gen(r *hlib.Rand, n int, tier, profile string, emit func(string, ...any)) {
 		emit("reset %d %s %s %s", hlib.Pick(r, 100, 5000, 70000), hlib.Pick(r, "always", "always", "never"), hlib.Pick(r, "always", "always", "never"),
 			hlib.Pick(r, "none", "relay", "relay", "peer", "other", "all"))
 		ops++
+		// C14 (unauthenticated inner packet inside an authentic relay frame): the relay re-seals a payload of
+		// >= 16 bytes whose header names another relay index of A / a hostinfo index / nobody's index / the
+		// carrying index itself, or whose body is garbage; only the carrying relay index may be marked used
+		if r.Chance(1, 2) {
+			emit("pkt ctrl own out none")
+			emit("pkt rmsg %s lie setidx relayB", hlib.Pick(r, "own", "own", "other"))
+			emit("pkt rmsg own lie setidx %s", hlib.Pick(r, "B", "R", "unknown", "zero"))
+			emit("pkt rmsg own lie setidx relay")
+			emit("pkt rmsg own lie flipbody %d %d", r.Intn(1000), r.Intn(8))
+			emit("pkt rmsg own lie trunc %d", hlib.Pick(r, 16, 17, 32))
+			ops += 6
+		}
 		steps := r.Range(15, 60)
 		for k := 0; k < steps; k++ {
 			kind := hlib.Pick(r, kinds...)
